@@ -54,6 +54,25 @@ def consts (j : Json) : Except String Json := do
     ("diags", Json.arr (ds.map (fun (n, l) => Json.arr #[String.ofList n, l])).toArray),
     ("consts", Json.arr (rendered.map (fun (k, v) => Json.arr #[String.ofList k, String.ofList v])).toArray)])
 
-def ops : List (String × (Json → Except String Json)) := [("c07.page", page), ("c07.consts", consts)]
+partial def itemText : Item → String
+  | .txt s => s
+  | .ref _ _ _ cs => String.join (cs.map itemText)
+
+def static (j : Json) : Except String Json := do
+  let env ← parseTable j "proj"
+  let uses ← arr j "uses"
+  let out ← uses.toList.mapM (fun u => do
+    let name ← str u "name"
+    let line ← nat u "line"
+    match useStatic env name line with
+    | none => pure (Json.mkObj [("ok", false)])
+    | some (items, ds) =>
+      pure (Json.mkObj [("ok", true), ("line", line), ("text", String.join (items.map itemText)),
+        ("diags", Json.arr (ds.map (fun d => match d with
+          | .circular _ l => Json.arr #["circular", l]
+          | .unresolved _ l => Json.arr #["unresolved", l])).toArray)]))
+  pure (Json.mkObj [("uses", Json.arr out.toArray)])
+
+def ops : List (String × (Json → Except String Json)) := [("c07.page", page), ("c07.consts", consts), ("c07.static", static)]
 
 end SnootyVerif.Drv.C07
